@@ -10,6 +10,8 @@ GENS = [
     (4, dict(bad_rate=0.4, inplace_rate=0.6, fail_rate=0.3)),
     (2, dict(bad_rate=0.4, inplace_rate=0.0, fail_rate=0.3)),
     (1, dict(bad_rate=0.4, inplace_rate=0.5, fail_rate=0.3, flavour="frozen")),
+    # Union[int, str] and Optional[spec] attributes
+    (1, dict(bad_rate=0.4, inplace_rate=0.6, fail_rate=0.3, flavour="wide")),
     # nested spec values reached through update_/transform_<attr> and the element helpers with
     # several nested keywords, the failing one after correct ones
     (3, dict(bad_rate=0.5, inplace_rate=0.7, fail_rate=0.3, prefer_nested=True,
